@@ -41,6 +41,10 @@ pub fn battery() -> Vec<(&'static str, String)> {
         ("element", r#"FIND(?a) WHERE { ?a ASSERTION {} } {A} ORDER BY ?a.id"#.into()),
         ("element", r#"FIND(?a.id, ?a.lifecycle.status, ?a.confidence, ?a.lifecycle.superseded_by) WHERE { ?a ASSERTION {stance: "reject"} } {A} ORDER BY ?a.id"#.into()),
         ("filter", r#"FIND(?a.id) WHERE { ?a ASSERTION {} FILTER(?a.confidence > 0.5) } {A} ORDER BY ?a.id"#.into()),
+        // a matcher value that is not a string (no index takes it: it is compared with the view on both paths)
+        ("matcher-nonstring", r#"FIND(?a.id) WHERE { ?a ASSERTION {confidence: 0.5} } {A} ORDER BY ?a.id"#.into()),
+        ("matcher-nonstring", r#"FIND(?a.id, ?a.mode) WHERE { ?a ASSERTION {stance: "reject", confidence: 0.7} } {A} ORDER BY ?a.id"#.into()),
+        ("matcher-nonstring", r#"FIND(?c.id) WHERE { ?c CONCEPT {type: "Person", aliases: []} } {A} ORDER BY ?c.id"#.into()),
         ("filter", r#"FIND(?c.name) WHERE { ?c CONCEPT {type: "Person"} FILTER(CONTAINS(?c.name, "a")) } {A} ORDER BY ?c.name"#.into()),
         ("not", r#"FIND(?c.id) WHERE { ?c CONCEPT {type: "Person"} NOT { (?c, "prefers", ?o) } } {A} ORDER BY ?c.id"#.into()),
         ("optional", r#"FIND(?c.id, ?o.id) WHERE { ?c CONCEPT {type: "Person"} OPTIONAL { (?c, "prefers", ?o) } } {A} ORDER BY ?c.id, ?o.id"#.into()),
@@ -90,6 +94,39 @@ async fn schema_env(w: &World, clause: &str) -> Value {
     let a = w.ask(&format!("DESCRIBE SCHEMA ENVIRONMENT {clause}")).await;
     json!({"status": a["status"], "error": a["error"],
            "result": a["results"].get(0).map(|r| r["result"].clone()).unwrap_or(Value::Null)})
+}
+
+/// "2026-09-23T04:51:56.603Z" -> milliseconds since 1970 (the engine's one normalized UTC form)
+fn parse_ms(t: &str) -> Option<i64> {
+    let n = |a: usize, b: usize| t.get(a..b)?.parse::<i64>().ok();
+    let (y, mo, d, h, mi, s, ms) = (n(0, 4)?, n(5, 7)?, n(8, 10)?, n(11, 13)?, n(14, 16)?, n(17, 19)?, n(20, 23)?);
+    // days from civil (Howard Hinnant)
+    let y2 = if mo <= 2 { y - 1 } else { y };
+    let era = y2.div_euclid(400);
+    let yoe = y2 - era * 400;
+    let doy = (153 * (if mo > 2 { mo - 3 } else { mo + 9 }) + 2) / 5 + d - 1;
+    let doe = yoe * 365 + yoe / 4 - yoe / 100 + doy;
+    let days = era * 146097 + doe - 719468;
+    Some((((days * 24 + h) * 60 + mi) * 60 + s) * 1000 + ms)
+}
+
+/// The instant `ms`, written with a UTC offset of `off_min` minutes; `frac` = keep the millisecond fraction.
+fn spell(ms: i64, off_min: i64, frac: bool, zulu: bool) -> String {
+    let local = ms + off_min * 60_000;
+    let (days, rem) = (local.div_euclid(86_400_000), local.rem_euclid(86_400_000));
+    let z = days + 719468;
+    let era = z.div_euclid(146097);
+    let doe = z - era * 146097;
+    let yoe = (doe - doe / 1460 + doe / 36524 - doe / 146096) / 365;
+    let doy = doe - (365 * yoe + yoe / 4 - yoe / 100);
+    let mp = (5 * doy + 2) / 153;
+    let d = doy - (153 * mp + 2) / 5 + 1;
+    let m = if mp < 10 { mp + 3 } else { mp - 9 };
+    let y = yoe + era * 400 + if m <= 2 { 1 } else { 0 };
+    let (h, mi, s, f) = (rem / 3_600_000, rem / 60_000 % 60, rem / 1000 % 60, rem % 1000);
+    let fraction = if frac { format!(".{f:03}") } else { String::new() };
+    let zone = if zulu && off_min == 0 { "Z".to_string() } else { format!("{}{:02}:{:02}", if off_min < 0 { '-' } else { '+' }, off_min.abs() / 60, off_min.abs() % 60) };
+    format!("{y:04}-{m:02}-{d:02}T{h:02}:{mi:02}:{s:02}{fraction}{zone}")
 }
 
 fn q(template: &str, as_of: &str) -> String {
@@ -287,6 +324,65 @@ pub async fn main(args: &[String]) {
                     if env != expected.schema_env {
                         failures.push(json!({"class": "asof-schema-differs", "what": format!("schema environment {clause} differs from the one in force at seq {want_seq}"),
                             "history": h, "after_statement": i, "recorded": expected.schema_env, "replayed": env, "statements": stmts.clone()}));
+                    }
+                }
+            }
+        }
+        // ---- AS OF TIME names an instant, not a string: every RFC 3339 spelling of one instant - canonical, +00:00,
+        // positive and negative offsets, without the fraction where that is exact - at a commit, just after it and
+        // between two commits must answer like AS OF SEQ of the commit current at that instant
+        let times: Vec<(i64, u64)> = coords.iter().filter_map(|c| parse_ms(&c.time).map(|ms| (ms, c.seq))).collect();
+        let mut instants: Vec<i64> = vec![];
+        for (k, (ms, _)) in times.iter().enumerate() {
+            instants.push(*ms);
+            instants.push(*ms + 1);
+            if let Some((next, _)) = times.get(k + 1) {
+                instants.push((*ms + *next) / 2);
+            }
+            // the whole second the commit fell in, written without a fraction (exact), when no commit lies in (sec, ms)
+            instants.push(ms - ms.rem_euclid(1000) + 1000);
+        }
+        if let Some((first, _)) = times.first() {
+            instants.push(first - 5000);
+        }
+        instants.sort();
+        instants.dedup();
+        for (ii, inst) in instants.iter().enumerate() {
+            let want_seq = times.iter().filter(|(ms, _)| ms <= inst).map(|(_, s)| *s).max().unwrap_or(0);
+            let expected = coords.iter().find(|x| x.seq == want_seq);
+            let mut spellings = vec![("canonical", spell(*inst, 0, true, true)), ("+00:00", spell(*inst, 0, true, false)),
+                                     ("+08:00", spell(*inst, 480, true, false)), ("-05:00", spell(*inst, -300, true, false)),
+                                     ("+05:30", spell(*inst, 330, true, false))];
+            if inst.rem_euclid(1000) == 0 {
+                spellings.push(("no-fraction", spell(*inst, 0, false, true)));
+                spellings.push(("no-fraction-08:00", spell(*inst, -480, false, false)));
+            }
+            for (sname, text) in spellings {
+                let clause = format!(r#"AS OF TIME "{text}""#);
+                // the coordinate itself, through SNAPSHOT
+                let snap = w.run(&format!("SNAPSHOT {clause}"), false).await;
+                let got_seq = snap.raw["results"][0]["result"]["snapshot_seq"].as_u64();
+                replays += 1;
+                *by_form.entry(format!("TIME:{sname}")).or_default() += 1;
+                if got_seq != Some(want_seq) {
+                    failures.push(json!({"class": "asof-time-spelling", "what": format!("SNAPSHOT {clause} resolves to seq {:?}; the commit current at that instant is seq {want_seq}", got_seq),
+                        "history": h, "query": format!("SNAPSHOT {clause}"), "form": sname, "commit_times": coords.iter().map(|c| (c.seq, c.time.clone())).collect::<Vec<_>>(), "statements": stmts.clone()}));
+                }
+                // and the recorded queries (all of them in the thorough tier, a rotating sixth otherwise)
+                let Some(expected) = expected else { continue };
+                for (qi, (family, template)) in bat.iter().enumerate() {
+                    if !all_forms && (qi + ii) % 6 != 0 {
+                        continue;
+                    }
+                    let text = q(template, &clause);
+                    let got = w.ask(&text).await;
+                    replays += 1;
+                    *by_family.entry(family.to_string()).or_default() += 1;
+                    *by_form.entry(format!("TIME:{sname}")).or_default() += 1;
+                    if got != expected.answers[qi] {
+                        let class = if template.contains("{id: ") && template.contains("state: ") { "live-by-id-ignores-state" } else { "asof-time-spelling" };
+                        failures.push(json!({"class": class, "what": format!("{family} query {clause} answers differently from AS OF SEQ {want_seq}, the commit current at that instant"),
+                            "history": h, "query": text, "form": sname, "recorded": expected.answers[qi], "replayed": got, "statements": stmts.clone()}));
                     }
                 }
             }
